@@ -5,6 +5,12 @@
 //!   (i)  model vs code:   |x_code - x_model| <= 1e-9 * (1 + |x_model|)
 //!   (ii) property oracle evaluated natively on the code's answer: residual of A x = b, Q^T Q = I, R upper
 //!        triangular, Q R = A, det(AB) = det A det B, row exchange flips the sign, norms against their definitions.
+//!
+//! Robustness streams (FRAMEWORK.md): every call is made on BOTH receivers (`array.op()` and `Ok(array).op()`, bit-identical
+//! answers required); `x…` ops carry a variant `<type>/<scaleA>/<scaleB>`: the same integer array given to the crate as
+//! f64 / f32 / i32 / i64 and multiplied by an exact scale (2^±30, 2^±40, 10^±9, 10^±12) — the model answers in exact
+//! rationals of the scaled input and every tolerance is RELATIVE to the natural unit of the answer (s^n for det, s for
+//! norm and R, sb/sa for solve, 1 for Q); sizes n = 7, 8, stacks and vectors of 64 … 4900 elements, zero-length axes.
 use arrharness::*;
 
 const TOL: f64 = 1e-9;
@@ -146,6 +152,199 @@ fn gen_norms(out: &mut dyn FnMut(String), thorough: bool) {
     }
 }
 
+// ---------------------------------------------------------------- robustness streams
+
+const SCALES: [&str; 8] = ["2^-30", "2^-40", "2^30", "2^40", "10^-9", "10^-12", "10^9", "10^12"];
+
+/// exactly singular, one recipe per `kind` (4: the last row is the sum of two others — the deficiency only shows in the LAST pivot)
+fn singular_kind(rng: &mut Rng, n: usize, kind: usize) -> M {
+    let mut m = rand_mat(rng, n, 4);
+    match kind {
+        0 => { let r = rng.below(n); m[r] = vec![0; n]; }
+        1 => { let r = rng.below(n); let s = (r + 1 + rng.below(n - 1)) % n; m[r] = m[s].clone(); }
+        2 => { let c = rng.below(n); let d = (c + 1 + rng.below(n - 1)) % n; for i in 0..n { m[i][c] = m[i][d]; } }
+        3 => { let u: Vec<i64> = (0..n).map(|_| rng.range(-3, 3)).collect(); let v: Vec<i64> = (0..n).map(|_| rng.range(-3, 3)).collect();
+               m = (0..n).map(|i| (0..n).map(|j| u[i] * v[j]).collect()).collect(); }
+        _ => { if n >= 3 { m[n - 1] = (0..n).map(|j| m[0][j] + m[1][j]).collect(); } else { m[1] = m[0].iter().map(|x| 2 * x).collect(); } }
+    }
+    m
+}
+/// values that never vanish, so a dropped tail / lane / block always changes the norm
+fn nonzero_vals(rng: &mut Rng, n: usize) -> Vec<i64> { (0..n).map(|_| *rng.pick(&[-9i64, -7, -5, -3, -2, -1, 1, 2, 3, 4, 6, 8, 9])).collect() }
+
+fn norm_axes(nd: usize, full: bool) -> Vec<String> {
+    let ndi = nd as i64;
+    let mut axes: Vec<String> = vec!["none".into()];
+    for ax in 0..ndi { axes.push(ax.to_string()); axes.push((ax - ndi).to_string()); }
+    if nd >= 2 {
+        axes.push("0,1".into()); axes.push("-1,-2".into()); axes.push(format!("{},{}", ndi - 2, ndi - 1)); axes.push("0,-1".into());
+        if full { axes.push("1,0".into()); axes.push("-2,-1".into()); axes.push(format!("{},0", ndi - 1)); }
+    }
+    axes.sort(); axes.dedup();
+    axes
+}
+
+fn gen_streams(out: &mut dyn FnMut(String), rng: &mut Rng, thorough: bool) {
+    let ords_enum = ["none", "i0", "i1", "i2", "i3", "i4", "i-1", "i-2", "inf", "ninf", "fro", "nuc"];
+    // ---- 1. sizes: norm (all orders) of vectors / matrices / stacks of 63 … 4900 elements; every count mod 8 occurs
+    let mut big: Vec<Vec<usize>> = vec![vec![63], vec![64], vec![65], vec![66], vec![67], vec![68], vec![69], vec![70], vec![71], vec![72], vec![100], vec![255], vec![257], vec![300], vec![1025], vec![1030], vec![4100],
+        vec![3, 5, 5], vec![3, 6, 6], vec![2, 6, 6], vec![5, 4, 4], vec![3, 7, 7], vec![2, 8, 8], vec![7, 3, 3], vec![9, 9], vec![8, 8], vec![13, 5], vec![5, 13], vec![11, 2, 3]];
+    for s in big_shapes() { if s.iter().product::<usize>() >= 24 && !big.contains(&s) { big.push(s); } }
+    for shape in &big {
+        let cnt: usize = shape.iter().product();
+        let nd = shape.len();
+        let vals = nonzero_vals(rng, cnt);
+        let a = show_shape(shape, &vals);
+        let small = cnt <= 320;
+        let axes = norm_axes(nd, small && nd <= 3);
+        let mut ords: Vec<String> = ords_enum.iter().map(|s| s.to_string()).collect();
+        ords.push(format!("s{}", hex("fro"))); ords.push(format!("S{}", hex("2"))); ords.push(format!("S{}", hex("-Inf"))); ords.push(format!("s{}", hex("1")));
+        let huge = cnt > 1300;   // ~20-80 ms per case in the model driver: fewer combinations, every order still occurs
+        for (oi, ord) in ords.iter().enumerate() { for ax in &axes {
+            if !small && !thorough && ax.contains(',') && ax != "0,1" && ax != "-1,-2" { continue }
+            if huge && !thorough && (oi >= 12 || (ax.starts_with('-') && ax != "-1")) { continue }
+            out(format!("norm {a} {ord} {ax} none"));
+            if ((ax == "none" || ax == "-1" || ax == "0,1") && !(huge && !thorough && ax != "none")) || (thorough && small) { out(format!("norm {a} {ord} {ax} true")); }
+            if thorough && small { out(format!("norm {a} {ord} {ax} false")); }
+        } }
+        // the same counts as a tag array (monotone values, both signs) and on the other element types
+        let t = format!("i{}+{}", show_list(shape), -(cnt as i64) / 2 - 1);
+        for ord in ["none", "i1", "i2", "inf", "ninf", "fro", "i0"] { for ax in ["none", "0", "-1"] { out(format!("norm {t} {ord} {ax} none")); } }
+        if cnt <= 1100 {
+            for ty in ["f32", "i32", "i64"] { for ord in ["none", "i1", "i2", "inf", "ninf", "fro", "i0"] { for ax in ["none", "0", "-1"] {
+                out(format!("xnorm {a} {ord} {ax} none {ty}/1/1"));
+            } } }
+        }
+        for sc in ["2^-30", "10^-12", "2^40", "10^9"] { for ord in ["none", "i1", "i2", "i3", "inf", "fro"] { for ax in ["none", "-1"] {
+            if huge && !thorough && (ax != "none" || ord == "i1" || ord == "i3") { continue }
+            out(format!("xnorm {a} {ord} {ax} none f64/{sc}/1"));
+        } } }
+    }
+    // lanes longer than 4096 holding the extreme value many times
+    for (len, shape) in [(4100usize, vec![4100usize]), (4099, vec![2, 4099])] {
+        let cnt: usize = shape.iter().product();
+        let vals: Vec<i64> = (0..cnt).map(|i| if i % 7 == 3 || i + 2 >= cnt { 9 } else if i % 11 == 0 { -9 } else { rng.range(-8, 8) }).collect();
+        let a = show_shape(&shape, &vals);
+        for ord in ["inf", "ninf", "i1", "i0", "none", "i2"] { for ax in ["none", "-1", "0"] { if thorough || ax != "0" || ord == "inf" { out(format!("norm {a} {ord} {ax} none")); } } }
+        let _ = len;
+    }
+    // ---- 1b. sizes: n = 7, 8 (the cofactor determinant is exponential: ~10 ms at n = 7, ~90 ms at n = 8 per determinant, model + code)
+    for (n, reps) in [(7usize, if thorough { 12 } else { 3 }), (8, if thorough { 4 } else { 1 })] {
+        for _ in 0..reps {
+            let fams: Vec<M> = vec![rand_conditioned(rng, n), perm_diag_dominant(rng, n), triangular(rng, n, true), triangular(rng, n, false), pivot_forcing(rng, n)];
+            for m in &fams {
+                let a = show_mat(m);
+                out(format!("solve {a} {}", show_vec(&rand_rhs(rng, n, 1))));
+                out(format!("solve {a} {}", show_shape(&[n, 3], &rand_rhs(rng, n, 3))));
+                out(format!("det {a}")); out(format!("det_elim {a}")); out(format!("qr {a}"));
+                out(format!("norm {a} none none none")); out(format!("norm {a} i1 none none")); out(format!("norm {a} inf 0 none"));
+                if n == 7 {
+                    out(format!("solve {a} {}", show_shape(&[n, n], &rand_rhs(rng, n, n))));
+                    let (i, j) = (rng.below(n), rng.below(n));
+                    out(format!("det_swap {a} {i} {j}")); out(format!("det_mul {a} {}", show_mat(&rand_mat(rng, n, 9))));
+                    out(format!("xqr {a} f64/2^-40/1")); out(format!("xdet {a} f64/10^9/1"));
+                }
+            }
+        }
+    }
+    // ---- 1c. singular matrices of every size 2..8, every recipe: refused with SingularMatrix (vector and several columns)
+    for n in 2..=8usize {
+        let reps = if n == 8 { 1 } else if thorough { 6 } else { 2 };
+        for kind in 0..5 { for r in 0..reps {
+            if n == 8 && !thorough && kind % 2 == 1 { continue }
+            let s = singular_kind(rng, n, kind);
+            let a = show_mat(&s);
+            out(format!("solve {a} {}", show_vec(&rand_rhs(rng, n, 1))));
+            out(format!("solve {a} {}", show_shape(&[n, 2], &rand_rhs(rng, n, 2))));
+            if n <= 7 { out(format!("det {a}")); out(format!("det_elim {a}")); }
+            if n <= 6 && r == 0 {
+                for sc in ["2^-30", "2^40", "10^9", "10^-12"] { out(format!("xsolve {a} {} f64/{sc}/1", show_vec(&rand_rhs(rng, n, 1)))); }
+                out(format!("xsolve {a} {} f32/1/1", show_vec(&rand_rhs(rng, n, 1))));
+                out(format!("xsolve {a} {} i64/1/1", show_vec(&rand_rhs(rng, n, 1))));
+            }
+        } }
+    }
+    // ---- 1d. long stacks (leading axes 7..40) and deep stacks
+    for (lead, n) in [(vec![7usize], 2usize), (vec![17], 2), (vec![40], 2), (vec![9], 3), (vec![16], 3), (vec![3], 5), (vec![3], 6), (vec![8], 4), (vec![2, 2, 2], 3), (vec![3, 1, 2], 2), (vec![1, 7], 3), (vec![300], 2)] {
+        let cnt: usize = lead.iter().product();
+        if cnt > 100 && !thorough { continue }
+        let mats: Vec<M> = (0..cnt).map(|t| match t % 4 { 0 => rand_conditioned(rng, n), 1 => pivot_forcing(rng, n), 2 => perm_diag_dominant(rng, n), _ => triangular(rng, n, t % 8 == 3) }).collect();
+        let e: Vec<i64> = mats.iter().flatten().flatten().copied().collect();
+        let mut shape = lead.clone(); shape.push(n); shape.push(n);
+        let a = show_shape(&shape, &e);
+        out(format!("det {a}")); out(format!("qr {a}"));
+        out(format!("norm {a} none none none")); out(format!("norm {a} fro -2,-1 none")); out(format!("norm {a} i1 -2,-1 true")); out(format!("norm {a} inf -1,-2 none"));
+        for sc in ["2^-30", "10^-9", "2^40", "10^12"] { out(format!("xdet {a} f64/{sc}/1")); out(format!("xqr {a} f64/{sc}/1")); }
+        out(format!("xdet {a} f32/1/1")); out(format!("xdet {a} i32/1/1")); out(format!("xdet {a} i64/1/1"));
+    }
+    // ---- 2. zero-length axes
+    let mut zs = zero_shapes();
+    zs.extend([vec![0, 2, 2], vec![2, 2, 0], vec![2, 0, 0], vec![0, 3, 3], vec![3, 0, 2, 2], vec![0, 0, 0]]);
+    for z in &zs {
+        let a = format!("{}:-", show_list(z));
+        out(format!("det {a}")); out(format!("qr {a}"));
+        out(format!("solve {a} 0:-")); out(format!("solve {a} 2:1,2")); out(format!("solve 2,2:1,2,3,5 {a}")); out(format!("solve 3,3:2,0,1,1,3,0,0,1,4 {a}"));
+        for ord in ["none", "i0", "i1", "i2", "i3", "inf", "ninf", "fro", "nuc", "i-1"] {
+            for ax in norm_axes(z.len(), false) { out(format!("norm {a} {ord} {ax} none")); if thorough || ax == "none" || ax == "-1" { out(format!("norm {a} {ord} {ax} true")); } }
+        }
+        for ty in ["f32", "i32", "i64"] { out(format!("xdet {a} {ty}/1/1")); out(format!("xnorm {a} none none none {ty}/1/1")); out(format!("xsolve {a} 0:- {ty}/1/1")); }
+        out(format!("xqr {a} f32/1/1"));
+    }
+    // ---- 3. element types (f32 / i32 / i64) and 5. exact scales, on the structured families n = 2..6
+    let reps = if thorough { 10 } else { 2 };
+    for n in 2..=6usize { for r in 0..reps {
+        let fams: Vec<M> = vec![rand_conditioned(rng, n), perm_diag_dominant(rng, n), triangular(rng, n, true), triangular(rng, n, false), pivot_forcing(rng, n)];
+        for (fi, m) in fams.iter().enumerate() {
+            let a = show_mat(m);
+            // --- scales (f64): qr / det / norm / solve, relative tolerances
+            for (si, sc) in SCALES.iter().enumerate() {
+                out(format!("xqr {a} f64/{sc}/1")); out(format!("xdet {a} f64/{sc}/1"));
+                out(format!("xnorm {a} none none none f64/{sc}/1")); out(format!("xnorm {a} fro none none f64/{sc}/1")); out(format!("xnorm {a} i1 none true f64/{sc}/1"));
+                out(format!("xnorm {a} inf 0,1 none f64/{sc}/1")); out(format!("xnorm {a} i2 {} none f64/{sc}/1", rng.below(2))); out(format!("xnorm {a} i3 -1 none f64/{sc}/1"));
+                let v = rand_rhs(rng, n, 1);
+                for o in ["none", "i1", "i2", "inf", "ninf", "i0", "i4"] { out(format!("xnorm {} {o} none none f64/{sc}/1", show_vec(&v))); }
+                // right-hand side unscaled, scaled alike, scaled the other way
+                let other = SCALES[(si + 2) % 8];
+                out(format!("xsolve {a} {} f64/{sc}/1", show_vec(&rand_rhs(rng, n, 1))));
+                out(format!("xsolve {a} {} f64/{sc}/{sc}", show_shape(&[n, 2], &rand_rhs(rng, n, 2))));
+                let k = 1 + rng.below(n);
+                out(format!("xsolve {a} {} f64/{sc}/{other}", show_shape(&[n, k], &rand_rhs(rng, n, k))));
+                out(format!("xsolve {a} {} f64/1/{sc}", show_vec(&rand_rhs(rng, n, 1))));
+            }
+            // far scales whose squares / fourth powers still fit f64 (det would under/overflow: qr and norm only)
+            for sc in ["2^-200", "2^200"] {
+                out(format!("xqr {a} f64/{sc}/1"));
+                for (o, ax) in [("none", "none"), ("fro", "none"), ("i1", "0"), ("i2", "-1"), ("i4", "0"), ("inf", "0,1")] { out(format!("xnorm {a} {o} {ax} none f64/{sc}/1")); }
+            }
+            // --- element types
+            for ty in ["f32", "i32", "i64"] {
+                out(format!("xdet {a} {ty}/1/1"));
+                for (o, ax) in [("none", "none"), ("fro", "none"), ("i1", "none"), ("inf", "none"), ("i1", "0"), ("inf", "-1"), ("i2", "1"), ("i0", "0"), ("ninf", "0"), ("i-1", "0,1"), ("ninf", "1,0")] {
+                    out(format!("xnorm {a} {o} {ax} none {ty}/1/1"));
+                }
+                // integer element types truncate the solution: take right-hand sides with a whole-number solution, b = A x0
+                let k = 1 + rng.below(3);
+                let x0: Vec<i64> = (0..n * k).map(|_| rng.range(-6, 6)).collect();
+                let b: Vec<i64> = (0..n).flat_map(|i| (0..k).map(|c| (0..n).map(|t| m[i][t] * x0[t * k + c]).sum::<i64>()).collect::<Vec<i64>>()).collect();
+                out(format!("xsolve {a} {} {ty}/1/1", show_shape(&[n, k], &b)));
+                let bv: Vec<i64> = (0..n).map(|i| (0..n).map(|t| m[i][t] * x0[t]).sum::<i64>()).collect();
+                out(format!("xsolve {a} {} {ty}/1/1", show_vec(&bv)));
+            }
+            out(format!("xsolve {a} {} f32/1/1", show_shape(&[n, 2], &rand_rhs(rng, n, 2))));
+            // f32 Gram–Schmidt keeps ~4 digits on the well-conditioned families only
+            if fi == 1 || (fi == 2 && n <= 4) { out(format!("xqr {a} f32/1/1")); }
+        }
+        // stacks, scaled
+        if r % 2 == 0 && n <= 5 {
+            let cnt = 2 + rng.below(3);
+            let mats: Vec<M> = (0..cnt).map(|t| if t % 2 == 0 { rand_conditioned(rng, n) } else { pivot_forcing(rng, n) }).collect();
+            let e: Vec<i64> = mats.iter().flatten().flatten().copied().collect();
+            let a = show_shape(&[cnt, n, n], &e);
+            for sc in SCALES { out(format!("xqr {a} f64/{sc}/1")); out(format!("xdet {a} f64/{sc}/1")); out(format!("xnorm {a} none none none f64/{sc}/1")); out(format!("xnorm {a} fro 1,2 none f64/{sc}/1")); }
+        }
+    } }
+}
+
 fn gen(tier: &str, seed: u64, out: &mut dyn FnMut(String)) {
     let thorough = tier == "thorough";
     let mut rng = Rng::new(seed);
@@ -155,6 +354,12 @@ fn gen(tier: &str, seed: u64, out: &mut dyn FnMut(String)) {
     out("solve 3,3:1,1,0,4,5,1,0,1,6 3,3:1,2,3,4,5,6,7,8,9".into());
     out("qr 3,2,2:2,1,1,3,0,1,1,0,1,2,3,5".into());
     out("qr 2,3,3:2,1,0,1,3,1,0,1,4,0,1,2,1,0,3,4,-3,8".into());
+    // round-2 seeded changes: small entries (absolute tests), 75 / 67 elements (a dropped tail), a deficiency in the last pivot
+    out("xqr 3,3:12,-51,4,6,167,-68,-4,24,-41 f64/10^-10/1".into());
+    out("xqr 2,2:2,1,1,3 f64/2^-40/1".into());
+    out(format!("norm {} none none none", show_shape(&[3, 5, 5], &(1..=75).map(|i| (i % 9) + 1).collect::<Vec<i64>>())));
+    out(format!("norm {} i2 none none", show_shape(&[67], &(1..=67).map(|i| (i % 5) - 7).collect::<Vec<i64>>())));
+    out("solve 6,6:1,2,0,1,3,1,0,1,2,1,0,2,2,0,1,3,1,0,1,1,0,2,1,3,3,1,2,0,1,1,1,3,2,2,3,3 6:1,2,3,4,5,6".into());
     // ---- exhaustive small scope
     // every 2x2 matrix over -2..2: det, elimination, row exchange, product with a fixed partner, solve (vector, 1, 2, 3 columns), qr
     let fixed: M = vec![vec![2, -1], vec![1, 3]];
@@ -224,6 +429,8 @@ fn gen(tier: &str, seed: u64, out: &mut dyn FnMut(String)) {
     }
     // ---- norm: order / axis / keepdims dispatch, every combination on fixed arrays
     gen_norms(out, thorough);
+    // ---- robustness streams: sizes, zero-length axes, element types, exact scales (both receivers are exercised by every case)
+    gen_streams(out, &mut rng, thorough);
     // ---- malformed
     for line in [
         "solve 2,3:1,2,3,4,5,6 2:1,2", "solve 3,2:1,2,3,4,5,6 3:1,2,3", "solve 4:1,2,3,4 2:1,2", "solve 1,1:5 1:10", "solve 2,2,2:1,2,3,4,5,6,7,9 2:1,2",
@@ -308,6 +515,7 @@ fn exec_solve(args: &[&str], expected: &str) -> Option<Verdict> {
         return Some(Verdict::Open(o));
     }
     let real = match std::panic::catch_unwind(std::panic::AssertUnwindSafe(|| a.solve(&b))) { Ok(r) => r, Err(_) => return Some(compare_default("panic".into(), expected)) };
+    if let Some(d) = recv_arr(&real, || { let r: Result<Array<f64>, ArrayError> = Ok(a.clone()); r.solve(&b) }) { return Some(d) }
     // a singular matrix must be refused with exactly the singular-matrix error
     let exact_err = expected == "err SingularMatrix";
     let first = cmp_arr(&real, expected, exact_err);
@@ -331,13 +539,18 @@ fn exec_solve(args: &[&str], expected: &str) -> Option<Verdict> {
 fn exec_det(args: &[&str], expected: &str) -> Option<Verdict> {
     let a = arr_f64(args[0])?;
     let real = match std::panic::catch_unwind(std::panic::AssertUnwindSafe(|| a.det())) { Ok(r) => r, Err(_) => return Some(compare_default("panic".into(), expected)) };
+    if let Some(d) = recv_arr(&real, || { let r: Result<Array<f64>, ArrayError> = Ok(a.clone()); r.det() }) { return Some(d) }
     to_verdict(cmp_arr(&real, expected, false))
 }
 
 fn det_of(m: &M) -> Result<f64, String> {
     let a = Array::new(m.iter().flatten().map(|&x| x as f64).collect::<Vec<f64>>(), vec![m.len(), m.len()]).map_err(|e| format!("err {}", err_name(&e)))?;
+    // both receivers: the chained call must give the same bits
+    let chained = std::panic::catch_unwind(std::panic::AssertUnwindSafe(|| { let r: Result<Array<f64>, ArrayError> = Ok(a.clone()); r.det() }));
     match std::panic::catch_unwind(std::panic::AssertUnwindSafe(|| a.det())) {
-        Ok(Ok(d)) => { let e = d.get_elements().unwrap(); if e.len() == 1 { Ok(e[0]) } else { Err(format!("det returned {} values", e.len())) } }
+        Ok(Ok(d)) => {
+            match chained { Ok(Ok(c)) if same_arr(&d, &c) => {}, _ => return Err("RECEIVER-DIVERGENCE: det on Ok(array) differs from det on the array".into()) }
+            let e = d.get_elements().unwrap(); if e.len() == 1 { Ok(e[0]) } else { Err(format!("det returned {} values", e.len())) } }
         Ok(Err(e)) => Err(format!("err {}", err_name(&e))),
         Err(_) => Err("panic".into()),
     }
@@ -404,23 +617,14 @@ fn exec_norm(args: &[&str], expected: &str) -> Option<Verdict> {
     let a = arr_f64(args[0])?;
     let axis: Option<Vec<isize>> = if args[2] == "none" { None } else { Some(parse_isize_list(args[2])) };
     let keep: Option<bool> = match args[3] { "none" => None, "true" => Some(true), "false" => Some(false), _ => return None };
-    let call = |a: &Array<f64>| -> Result<Array<f64>, ArrayError> {
-        let o = args[1];
-        if o == "none" { a.norm(None::<NormOrd>, axis.clone(), keep) }
-        else if let Some(h) = o.strip_prefix('s') {
-            let bytes: Vec<u8> = (0..h.len() / 2).map(|i| u8::from_str_radix(&h[2 * i..2 * i + 2], 16).unwrap()).collect();
-            let text = String::from_utf8(bytes).unwrap();
-            a.norm(Some(text.as_str()), axis.clone(), keep)
-        } else {
-            let ord = match o { "inf" => NormOrd::Inf, "ninf" => NormOrd::NegInf, "fro" => NormOrd::Fro, "nuc" => NormOrd::Nuc, _ => NormOrd::Int(o[1..].parse().unwrap()) };
-            a.norm(Some(ord), axis.clone(), keep)
-        }
-    };
-    let real = match std::panic::catch_unwind(std::panic::AssertUnwindSafe(|| call(&a))) { Ok(r) => r, Err(_) => {
+    let real = match std::panic::catch_unwind(std::panic::AssertUnwindSafe(|| call_norm(&a, args[1], &axis, keep))) { Ok(r) => r, Err(_) => {
         if expected == "open" { return Some(Verdict::Open("panic".into())) }
         return Some(compare_default("panic".into(), expected)) } };
+    if let Some(d) = recv_arr(&real, || { let r: Result<Array<f64>, ArrayError> = Ok(a.clone()); call_norm(&r, args[1], &axis, keep) }) { return Some(d) }
     let observed = show_res(&real, show_f);
     if expected == "open" { return Some(Verdict::Open(observed)) }
+    // an empty operand is outside the model (it sums / maximises nothing and answers 0; the crate refuses): only "no panic" is compared
+    if a.get_elements().unwrap().is_empty() { return Some(Verdict::Open(observed)) }
     match &real {
         Err(_) => Some(compare_default(observed, expected)),
         Ok(r) => {
@@ -456,6 +660,7 @@ fn exec_norm(args: &[&str], expected: &str) -> Option<Verdict> {
 fn exec_qr(args: &[&str], expected: &str) -> Option<Verdict> {
     let a = arr_f64(args[0])?;
     let real = match std::panic::catch_unwind(std::panic::AssertUnwindSafe(|| a.qr())) { Ok(r) => r, Err(_) => return Some(compare_default("panic".into(), expected)) };
+    if let Some(d) = recv_qr(&real, || { let r: Result<Array<f64>, ArrayError> = Ok(a.clone()); r.qr() }) { return Some(d) }
     let observed = match &real { Ok(v) => format!("ok {} pair(s)", v.len()), Err(e) => format!("err {}", err_name(e)) };
     let pairs = match &real { Err(_) => return Some(compare_default(observed, expected)), Ok(v) => v };
     let Some(body) = expected.strip_prefix("ok ") else { return mismatch(observed, format!("model says `{}`", truncate(expected, 200))) };
@@ -490,6 +695,289 @@ fn exec_qr(args: &[&str], expected: &str) -> Option<Verdict> {
     if open { Some(Verdict::Open(observed)) } else { Some(Verdict::Match(observed)) }
 }
 
+// ---------------------------------------------------------------- both receivers
+
+fn bits_eq(a: f64, b: f64) -> bool { a.to_bits() == b.to_bits() || (a.is_nan() && b.is_nan()) }
+fn same_arr<T: Numeric>(p: &Array<T>, c: &Array<T>) -> bool {
+    let (pe, ce) = (p.get_elements().unwrap(), c.get_elements().unwrap());
+    p.get_shape().unwrap() == c.get_shape().unwrap() && pe.len() == ce.len() && pe.iter().zip(&ce).all(|(x, y)| bits_eq(x.to_f64(), y.to_f64()))
+}
+fn show_t<T: Numeric>(a: &Array<T>) -> String {
+    format!("{}:{}", show_list(&a.get_shape().unwrap()), a.get_elements().unwrap().iter().map(|x| format!("{:e}", x.to_f64())).collect::<Vec<_>>().join(","))
+}
+/// the chained call (`Ok(array).op(..)` through `impl … for Result<Array<N>, ArrayError>`) must give the plain call's answer bit for bit
+fn recv_arr<T: Numeric>(plain: &Result<Array<T>, ArrayError>, chained: impl FnOnce() -> Result<Array<T>, ArrayError>) -> Option<Verdict> {
+    let c = match std::panic::catch_unwind(std::panic::AssertUnwindSafe(chained)) {
+        Ok(c) => c,
+        Err(_) => return mismatch(format!("RECEIVER-DIVERGENCE chained call panics, plain call `{}`", truncate(&show_res(plain, show_t), 300)), "the call on Ok(array) must behave like the call on the array".into()),
+    };
+    let same = match (plain, &c) { (Ok(p), Ok(c)) => same_arr(p, c), (Err(p), Err(c)) => err_name(p) == err_name(c), _ => false };
+    if same { None } else {
+        mismatch(format!("RECEIVER-DIVERGENCE chained call gives `{}`, plain call `{}`", truncate(&show_res(&c, show_t), 300), truncate(&show_res(plain, show_t), 300)),
+                 "the call on Ok(array) must behave like the call on the array".into())
+    }
+}
+fn recv_qr<T: Numeric>(plain: &Result<Vec<(Array<T>, Array<T>)>, ArrayError>, chained: impl FnOnce() -> Result<Vec<(Array<T>, Array<T>)>, ArrayError>) -> Option<Verdict> {
+    let cls = |r: &Result<Vec<(Array<T>, Array<T>)>, ArrayError>| match r { Ok(v) => format!("ok {} pair(s)", v.len()), Err(e) => format!("err {}", err_name(e)) };
+    let c = match std::panic::catch_unwind(std::panic::AssertUnwindSafe(chained)) {
+        Ok(c) => c,
+        Err(_) => return mismatch(format!("RECEIVER-DIVERGENCE chained call panics, plain call `{}`", cls(plain)), "the call on Ok(array) must behave like the call on the array".into()),
+    };
+    let same = match (plain, &c) {
+        (Ok(p), Ok(c)) => p.len() == c.len() && p.iter().zip(c).all(|((pq, pr), (cq, cr))| same_arr(pq, cq) && same_arr(pr, cr)),
+        (Err(p), Err(c)) => err_name(p) == err_name(c), _ => false };
+    if same { None } else { mismatch(format!("RECEIVER-DIVERGENCE chained call gives `{}` (different factors), plain call `{}`", cls(&c), cls(plain)), "the call on Ok(array) must behave like the call on the array".into()) }
+}
+
+// ---------------------------------------------------------------- element types and exact scales (the `x…` ops)
+
+trait El: NumericOps {
+    const INT: bool;
+    /// model-vs-code relative tolerance (rounding of the element type)
+    const RTOL: f64;
+    /// the same for values the model has in closed form (sums, maxima, one square root)
+    const RTOL_TIGHT: f64;
+    fn of(v: f64) -> Self { <Self as Numeric>::from_f64(v) }
+}
+impl El for f64 { const INT: bool = false; const RTOL: f64 = TOL; const RTOL_TIGHT: f64 = 1e-12; }
+impl El for f32 { const INT: bool = false; const RTOL: f64 = 2e-5; const RTOL_TIGHT: f64 = 2e-6; }
+impl El for i32 { const INT: bool = true; const RTOL: f64 = 0.; const RTOL_TIGHT: f64 = 0.; }
+impl El for i64 { const INT: bool = true; const RTOL: f64 = 0.; const RTOL_TIGHT: f64 = 0.; }
+
+#[derive(Clone, Copy)]
+struct Scale { v: f64, pow2: bool }
+fn parse_scale(s: &str) -> Option<Scale> {
+    match s.split_once('^') {
+        None => { let v: i64 = s.parse().ok()?; Some(Scale { v: v as f64, pow2: v == 1 }) }
+        Some((b, e)) => {
+            let (b, e): (u32, i32) = (b.parse().ok()?, e.parse().ok()?);
+            match b { 2 => Some(Scale { v: 2f64.powi(e), pow2: true }), 10 => Some(Scale { v: format!("1e{e}").parse().ok()?, pow2: false }), _ => None }
+        }
+    }
+}
+struct Variant<'a> { ty: &'a str, sa: Scale, sb: Scale }
+fn parse_variant(s: &str) -> Option<Variant<'_>> {
+    let mut it = s.split('/');
+    let (ty, sa, sb) = (it.next()?, parse_scale(it.next()?)?, parse_scale(it.next()?)?);
+    if it.next().is_some() { return None }
+    Some(Variant { ty, sa, sb })
+}
+fn arr_t<T: El>(s: &str, sc: f64) -> Option<Array<T>> {
+    let (shape, elems) = parse_arr_raw(s);
+    Array::new(elems.into_iter().map(|x| T::of(x as f64 * sc)).collect(), shape).ok()
+}
+/// what the element type can hold of the exact value (`N::from(f64)`: truncation for the integer types)
+fn want<T: El>(m: f64) -> f64 { T::of(m).to_f64() }
+fn close_t<T: El>(code: f64, model: f64, unit: f64, tight: bool, int_slack: f64) -> bool {
+    let w = want::<T>(model);
+    if T::INT { (code - w).abs() <= int_slack }
+    else { (code - w).abs() <= (if tight { T::RTOL_TIGHT } else { T::RTOL }) * (unit + w.abs()) }
+}
+
+/// typed analogue of `cmp_arr`: tolerance relative to `unit`, the natural magnitude of the answer
+fn cmp_arr_t<T: El>(real: &Result<Array<T>, ArrayError>, expected: &str, exact_err: bool, unit: f64, int_slack: f64) -> Result<String, (String, String)> {
+    let observed = show_res(real, show_t);
+    match real {
+        Err(e) => {
+            if class_of(expected) == "err" && (!exact_err || expected == format!("err {}", err_name(e))) { Ok(observed) }
+            else { Err((observed, format!("model says `{}`", truncate(expected, 300)))) }
+        }
+        Ok(a) => {
+            if !consistent(a) { return Err((observed, "inconsistent array (C01 monitor)".into())) }
+            let Some(body) = expected.strip_prefix("ok ") else { return Err((observed, format!("model says `{}`", truncate(expected, 300)))) };
+            let Some((shape, vals)) = parse_expected_arr(body) else { return Err((observed, "harness: cannot parse the model's answer".into())) };
+            let (rs, re) = (a.get_shape().unwrap(), a.get_elements().unwrap());
+            if rs != shape { return Err((observed, format!("shape: model {:?}", shape))) }
+            if re.len() != vals.len() { return Err((observed, format!("{} elements, the model has {}", re.len(), vals.len()))) }
+            for (p, (c, &m)) in re.iter().zip(&vals).enumerate() {
+                let c = c.to_f64();
+                if !close_t::<T>(c, m, unit, false, int_slack) { return Err((observed, format!("element {p}: code {c:e}, exact model {m:e} (relative to the unit {unit:e})"))) }
+            }
+            Ok(observed)
+        }
+    }
+}
+
+fn x_det<T: El>(a_s: &str, v: &Variant, expected: &str) -> Option<Verdict> {
+    let a = arr_t::<T>(a_s, v.sa.v)?;
+    let real = match std::panic::catch_unwind(std::panic::AssertUnwindSafe(|| a.det())) { Ok(r) => r, Err(_) => return Some(compare_default("panic".into(), expected)) };
+    if let Some(d) = recv_arr(&real, || { let r: Result<Array<T>, ArrayError> = Ok(a.clone()); r.det() }) { return Some(d) }
+    let (shape, ints) = parse_arr_raw(a_s);
+    let n = shape.last().copied().unwrap_or(0);
+    let unit = v.sa.v.powi(n as i32);
+    let first = cmp_arr_t(&real, expected, false, unit, 0.);
+    // native oracle: the exact integer determinant (Bareiss) of every matrix of the stack, scaled
+    if let (Ok(_), Ok(d), true) = (&first, &real, shape.len() >= 2 && n >= 2 && shape[shape.len() - 2] == n) {
+        for (t, (blk, c)) in ints.chunks(n * n).zip(d.get_elements().unwrap()).enumerate() {
+            let m: M = blk.chunks(n).map(|r| r.to_vec()).collect();
+            let exact = det_exact(&m) as f64 * unit;
+            if !close_t::<T>(c.to_f64(), exact, unit, false, 0.) { return mismatch(show_t(d), format!("matrix {t}: det {:e}, exact integer determinant x scale^n {exact:e}", c.to_f64())) }
+        }
+    }
+    to_verdict(first)
+}
+
+fn x_solve<T: El>(a_s: &str, b_s: &str, v: &Variant, expected: &str) -> Option<Verdict> {
+    let (a, b) = (arr_t::<T>(a_s, v.sa.v)?, arr_t::<T>(b_s, v.sb.v)?);
+    if b.ndim().ok()? == 0 { return Some(Verdict::Open(guarded(|| show_res(&a.solve(&b), show_t)))) }
+    let real = match std::panic::catch_unwind(std::panic::AssertUnwindSafe(|| a.solve(&b))) { Ok(r) => r, Err(_) => return Some(compare_default("panic".into(), expected)) };
+    if let Some(d) = recv_arr(&real, || { let r: Result<Array<T>, ArrayError> = Ok(a.clone()); r.solve(&b) }) { return Some(d) }
+    let (ash, aints) = parse_arr_raw(a_s);
+    let square = ash.len() == 2 && ash[0] == ash[1] && ash[0] >= 2;
+    let n = ash.first().copied().unwrap_or(0);
+    // residual of the code's own answer, relative: ||A x - b||_inf <= tol * (n ||A||_inf ||x||_inf + ||b||_inf)
+    let residual_ok = |x: &Array<T>| -> Result<(), String> {
+        let av: Vec<f64> = a.get_elements().unwrap().iter().map(|e| e.to_f64()).collect();
+        let bv: Vec<f64> = b.get_elements().unwrap().iter().map(|e| e.to_f64()).collect();
+        let xv: Vec<f64> = x.get_elements().unwrap().iter().map(|e| e.to_f64()).collect();
+        if bv.len() != xv.len() || n == 0 || bv.len() % n != 0 { return Err("solution has another element count than the right-hand side".into()) }
+        let k = bv.len() / n;
+        let na = (0..n).map(|i| (0..n).map(|t| av[i * n + t].abs()).sum::<f64>()).fold(0., f64::max);
+        let nx = xv.iter().fold(0f64, |m, v| m.max(v.abs()));
+        let nb = bv.iter().fold(0f64, |m, v| m.max(v.abs()));
+        // integer element types: the solution is truncated, each component may be off by one unit
+        let tol = if T::INT { 0. } else { T::RTOL * (na * nx * n as f64 + nb) };
+        let slack = if T::INT { na } else { 0. };
+        for i in 0..n { for c in 0..k {
+            let r: f64 = (0..n).map(|t| av[i * n + t] * xv[t * k + c]).sum::<f64>() - bv[i * k + c];
+            if !(r.abs() <= tol + slack) { return Err(format!("residual (A x - b)[{i}][{c}] = {r:e}")) }
+        } }
+        Ok(())
+    };
+    if square && expected == "err SingularMatrix" {
+        let m: M = aints.chunks(n).map(|r| r.to_vec()).collect();
+        let d = det_exact(&m);
+        if d != 0 {
+            // OPEN FINDING fixes/C15-solve-absolute-singularity-threshold.md: `|det| < 1e-12` is an absolute test; a well-conditioned matrix with
+            // small entries is refused (model and code agree on that).  Not compared; a correct solution is accepted as well.
+            return Some(match &real {
+                Err(ArrayError::SingularMatrix) => Verdict::Open("err SingularMatrix (well-conditioned matrix with small entries: absolute 1e-12 determinant test)".into()),
+                Ok(x) if residual_ok(x).is_ok() => Verdict::Open(format!("ok {} (solved; the model's absolute determinant test refuses)", show_t(x))),
+                other => Verdict::Mismatch { observed: show_res(other, show_t), detail: "well-conditioned scaled system: neither refused by the absolute determinant test nor solved".into() },
+            })
+        }
+        if !v.sa.pow2 {
+            // exactly singular integer matrix times a decimal scale: the cofactor determinant carries rounding noise far above 1e-12 (same finding)
+            if let Ok(x) = &real { return Some(Verdict::Open(format!("ok {} (singular matrix, decimal scale: rounding noise of det exceeds the absolute 1e-12 test)", truncate(&show_t(x), 200)))) }
+        }
+    }
+    let exact_err = expected == "err SingularMatrix";
+    let unit = v.sb.v / v.sa.v;
+    let first = cmp_arr_t(&real, expected, exact_err, unit, 1.);
+    if let (Ok(_), Ok(x)) = (&first, &real) { if let Err(d) = residual_ok(x) { return mismatch(show_t(x), d) } }
+    to_verdict(first)
+}
+
+/// the order argument in its three spellings: enum (`inf`, `i2`, …), `&str` (`s<hex>`), `String` (`S<hex>`)
+fn call_norm<T: El, R: ArrayLinalgNorms<T>>(recv: &R, o: &str, axis: &Option<Vec<isize>>, keep: Option<bool>) -> Result<Array<T>, ArrayError> {
+    let unhex = |h: &str| -> String { String::from_utf8((0..h.len() / 2).map(|i| u8::from_str_radix(&h[2 * i..2 * i + 2], 16).unwrap()).collect()).unwrap() };
+    if o == "none" { recv.norm(None::<NormOrd>, axis.clone(), keep) }
+    else if let Some(h) = o.strip_prefix('s') { let text = unhex(h); recv.norm(Some(text.as_str()), axis.clone(), keep) }
+    else if let Some(h) = o.strip_prefix('S') { recv.norm(Some(unhex(h)), axis.clone(), keep) }
+    else {
+        let ord = match o { "inf" => NormOrd::Inf, "ninf" => NormOrd::NegInf, "fro" => NormOrd::Fro, "nuc" => NormOrd::Nuc, _ => NormOrd::Int(o[1..].parse().unwrap()) };
+        recv.norm(Some(ord), axis.clone(), keep)
+    }
+}
+
+fn x_norm<T: El>(args: &[&str], v: &Variant, expected: &str) -> Option<Verdict> {
+    let a = arr_t::<T>(args[0], v.sa.v)?;
+    let axis: Option<Vec<isize>> = if args[2] == "none" { None } else { Some(parse_isize_list(args[2])) };
+    let keep: Option<bool> = match args[3] { "none" => None, "true" => Some(true), "false" => Some(false), _ => return None };
+    let real = match std::panic::catch_unwind(std::panic::AssertUnwindSafe(|| call_norm(&a, args[1], &axis, keep))) { Ok(r) => r, Err(_) => {
+        if expected == "open" { return Some(Verdict::Open("panic".into())) }
+        return Some(compare_default("panic".into(), expected)) } };
+    if let Some(d) = recv_arr(&real, || { let r: Result<Array<T>, ArrayError> = Ok(a.clone()); call_norm(&r, args[1], &axis, keep) }) { return Some(d) }
+    let observed = show_res(&real, show_t);
+    if expected == "open" { return Some(Verdict::Open(observed)) }
+    // an empty operand is outside the model (it sums / maximises nothing and answers 0; the crate refuses): only "no panic" is compared
+    if a.get_elements().unwrap().is_empty() { return Some(Verdict::Open(observed)) }
+    match &real {
+        Err(_) => Some(compare_default(observed, expected)),
+        Ok(r) => {
+            if !consistent(r) { return mismatch(observed, "inconsistent array (C01 monitor)".into()) }
+            let Some(body) = expected.strip_prefix("ok ") else { return mismatch(observed, format!("model says `{}`", expected)) };
+            let (sh, el) = body.split_once(':')?;
+            let shape = parse_usize_list(sh);
+            let vals: Vec<(f64, bool)> = el.split(',').map(sym_val).collect::<Option<Vec<_>>>()?;
+            let (rs, re) = (r.get_shape().unwrap(), r.get_elements().unwrap());
+            if rs != shape { return mismatch(observed, format!("shape: model {:?}", shape)) }
+            if re.len() != vals.len() { return mismatch(observed, format!("{} elements, the model has {}", re.len(), vals.len())) }
+            let unit = v.sa.v;
+            for (p, (c, &(m, tight))) in re.iter().zip(&vals).enumerate() {
+                let c = c.to_f64();
+                if !close_t::<T>(c, m, unit, tight, 0.) { return mismatch(observed, format!("element {p}: code {c:e}, model {m:e} (relative to the scale {unit:e})")) }
+            }
+            // definitions evaluated natively on the very elements the crate received
+            let e: Vec<f64> = a.get_elements().unwrap().iter().map(|x| x.to_f64()).collect();
+            let nd = a.ndim().unwrap();
+            if args[2] == "none" && re.len() == 1 {
+                let o = args[1];
+                let want_v = if o == "none" || (o == "i2" && nd == 1) || (o == "fro" && nd == 2) { Some(e.iter().map(|x| x * x).sum::<f64>().sqrt()) }
+                    else if o == "i1" && nd == 1 { Some(e.iter().map(|x| x.abs()).sum::<f64>()) }
+                    else if o == "inf" && nd == 1 { Some(e.iter().fold(0f64, |m, x| m.max(x.abs()))) }
+                    else { None };
+                if let Some(w) = want_v { if !close_t::<T>(re[0].to_f64(), w, unit, true, 0.) { return mismatch(observed, format!("definition gives {w:e}")) } }
+            }
+            Some(Verdict::Match(observed))
+        }
+    }
+}
+
+fn x_qr<T: El>(a_s: &str, v: &Variant, expected: &str) -> Option<Verdict> {
+    let a = arr_t::<T>(a_s, v.sa.v)?;
+    let real = match std::panic::catch_unwind(std::panic::AssertUnwindSafe(|| a.qr())) { Ok(r) => r, Err(_) => return Some(compare_default("panic".into(), expected)) };
+    if let Some(d) = recv_qr(&real, || { let r: Result<Array<T>, ArrayError> = Ok(a.clone()); r.qr() }) { return Some(d) }
+    let observed = match &real { Ok(v) => format!("ok {} pair(s)", v.len()), Err(e) => format!("err {}", err_name(e)) };
+    let pairs = match &real { Err(_) => return Some(compare_default(observed, expected)), Ok(v) => v };
+    let Some(body) = expected.strip_prefix("ok ") else { return mismatch(observed, format!("model says `{}`", truncate(expected, 200))) };
+    let exp: Vec<&str> = body.split(';').collect();
+    if exp.len() != pairs.len() { return mismatch(observed, format!("model has {} factor pairs", exp.len())) }
+    let (shape, elems) = parse_arr_raw(a_s);
+    let n = shape[shape.len() - 1];
+    let s = v.sa.v;
+    // f32 Gram–Schmidt: the factors carry the rounding of the element type times the (bounded) condition number
+    let tol = if T::RTOL > TOL { 50. * T::RTOL } else { TOL };
+    let av_all: Vec<f64> = a.get_elements().unwrap().iter().map(|x| x.to_f64()).collect();
+    let mut open = false;
+    for (t, ((q, r), e)) in pairs.iter().zip(&exp).enumerate() {
+        let parts: Vec<&str> = e.split('|').collect();
+        let rats = |s: &str| -> Option<Vec<f64>> { s.split(',').map(parse_rat).collect() };
+        let (us, nrm2, ru) = (rats(parts[0])?, rats(parts[1])?, rats(parts[2])?);
+        let av = &av_all[t * n * n..(t + 1) * n * n];
+        if nrm2.iter().any(|&x| x == 0.) { open = true; continue }
+        if q.get_shape().unwrap() != vec![n, n] || r.get_shape().unwrap() != vec![n, n] { return mismatch(observed, format!("pair {t}: shapes {:?} {:?}", q.get_shape(), r.get_shape())) }
+        let (qv, rv): (Vec<f64>, Vec<f64>) = (q.get_elements().unwrap().iter().map(|x| x.to_f64()).collect(), r.get_elements().unwrap().iter().map(|x| x.to_f64()).collect());
+        // magnitudes of the UNSCALED integer matrix: Q is scale free, R and Q R carry the scale once
+        let scale = elems[t * n * n..(t + 1) * n * n].iter().fold(1f64, |m, &x| m.max((x as f64).abs())) * n as f64;
+        for i in 0..n { for k in 0..n {
+            let (mq, mr) = (us[k * n + i] / nrm2[k].sqrt(), ru[k * n + i] / nrm2[k].sqrt());
+            if !((qv[i * n + k] - mq).abs() <= tol * scale) { return mismatch(observed, format!("pair {t}: Q[{i}][{k}] = {:e}, model {:e}", qv[i * n + k], mq)) }
+            if !((rv[k * n + i] - mr).abs() <= tol * scale * scale * s) { return mismatch(observed, format!("pair {t}: R[{k}][{i}] = {:e}, model {:e}", rv[k * n + i], mr)) }
+            let qtq: f64 = (0..n).map(|w| qv[w * n + i] * qv[w * n + k]).sum();
+            if !((qtq - if i == k { 1. } else { 0. }).abs() <= tol * scale) { return mismatch(observed, format!("pair {t}: (Q^T Q)[{i}][{k}] = {qtq:e}")) }
+            if i > k && !(rv[i * n + k].abs() <= tol * scale * scale * s) { return mismatch(observed, format!("pair {t}: R[{i}][{k}] = {:e} below the diagonal (scale {s:e})", rv[i * n + k])) }
+            let qr: f64 = (0..n).map(|w| qv[i * n + w] * rv[w * n + k]).sum();
+            if !((qr - av[i * n + k]).abs() <= tol * scale * scale * s) { return mismatch(observed, format!("pair {t}: (Q R)[{i}][{k}] = {qr:e}, A = {:e}", av[i * n + k])) }
+        } }
+    }
+    if open { Some(Verdict::Open(observed)) } else { Some(Verdict::Match(observed)) }
+}
+
+fn exec_x(op: &str, args: &[&str], expected: &str) -> Option<Verdict> {
+    let v = parse_variant(args.last()?)?;
+    macro_rules! on_ty { ($f:ident, $($arg:expr),*) => { match v.ty {
+        "f64" => $f::<f64>($($arg),*), "f32" => $f::<f32>($($arg),*), "i32" => $f::<i32>($($arg),*), "i64" => $f::<i64>($($arg),*), _ => None } } }
+    if (v.ty == "i32" || v.ty == "i64") && (v.sa.v != 1. || v.sb.v != 1.) { return None }
+    match op {
+        "xdet" => on_ty!(x_det, args[0], &v, expected),
+        "xsolve" => on_ty!(x_solve, args[0], args[1], &v, expected),
+        "xnorm" => on_ty!(x_norm, &args[..4], &v, expected),
+        "xqr" => match v.ty { "f64" => x_qr::<f64>(args[0], &v, expected), "f32" => x_qr::<f32>(args[0], &v, expected), _ => None },
+        _ => None,
+    }
+}
+
 fn exec(op: &str, args: &[&str], expected: &str) -> Option<Verdict> {
     match op {
         "solve" => exec_solve(args, expected),
@@ -499,6 +987,7 @@ fn exec(op: &str, args: &[&str], expected: &str) -> Option<Verdict> {
         "det_elim" => exec_det_elim(args, expected),
         "norm" => exec_norm(args, expected),
         "qr" => exec_qr(args, expected),
+        "xdet" | "xsolve" | "xnorm" | "xqr" => exec_x(op, args, expected),
         _ => None,
     }
 }
@@ -508,14 +997,14 @@ fn exec(op: &str, args: &[&str], expected: &str) -> Option<Verdict> {
 fn nontrivial(op: &str, args: &[&str]) -> bool {
     let (shape, e) = parse_arr_raw(args[0]);
     match op {
-        "solve" => {
+        "solve" | "xsolve" => {
             if shape.len() != 2 || shape[0] != shape[1] { return false }
             let n = shape[0];
             let exch = (1..n).any(|i| e[i * n].abs() > e[0].abs());
             let (bs, _) = parse_arr_raw(args[1]);
             exch || (bs.len() >= 2 && bs[1] >= 2)
         }
-        "norm" => shape.len() >= 2 || args[1] != "none" || args[2] != "none",
+        "norm" | "xnorm" => shape.len() >= 2 || args[1] != "none" || args[2] != "none",
         _ => shape.len() >= 3 || shape.iter().all(|&d| d >= 3),
     }
 }
